@@ -80,6 +80,9 @@ func runSolver(sp solverSpec, script string, dir string, id string, timeoutSec i
 
 // Solve discharges one obligation with the portfolio. Cover queries only need "not unsat".
 func Solve(w *World, o *Obligation, dir string, timeoutSec int, seed int) {
+	if o.Solver == "govc-determinism-analysis" || o.Solver == "ssa-frame" || o.Solver == "govc-analysis" {
+		return // decided by an analysis back end, not by SMT
+	}
 	script := w.Render(o.consts, o.Assume, o.Goal, nil)
 	id := sanitize(o.Name) + fmt.Sprintf("_p%d", o.PathIdx)
 	if len(id) > 150 {
